@@ -672,3 +672,151 @@ twin('C17-twin-sorted-call', 'C17',
        "        all_markers = list(all_markers)\n"
        "        all_markers.sort()\n",
        "        all_markers = sorted(all_markers)\n")])
+
+
+# ----------------------------------------------------------------------
+# C10
+# ----------------------------------------------------------------------
+mutant('C10-no-validate', 'C10', 'the constructor no longer validates',
+       [(P+'taxonomy/taxonomy_tree.py',
+         "        validate_taxonomy_tree(self._data)\n", "")],
+       'R-MUST/validated-on-construction')
+mutant('C10-validate-conditional', 'C10',
+       'validation is skipped for trees carrying metadata',
+       [(P+'taxonomy/taxonomy_tree.py',
+         "        validate_taxonomy_tree(self._data)\n",
+         "        if 'metadata' not in self._data:\n"
+         "            validate_taxonomy_tree(self._data)\n")],
+       'R-MUST/validated-on-construction')
+mutant('C10-validate-argument', 'C10',
+       'the argument (not the stored copy) is validated, then stored data '
+       'is patched',
+       [(P+'taxonomy/taxonomy_tree.py',
+         "        self._data = copy.deepcopy(data)\n"
+         "        validate_taxonomy_tree(self._data)\n",
+         "        validate_taxonomy_tree(data)\n"
+         "        self._data = copy.deepcopy(data)\n")],
+       'R-MUST/validated-on-construction')
+mutant('C10-no-private-copy', 'C10',
+       'the constructor keeps the caller\'s dict',
+       [(P+'taxonomy/taxonomy_tree.py',
+         "        self._data = copy.deepcopy(data)\n",
+         "        self._data = data\n")],
+       'R-ENCAPS/private-copy')
+mutant('C10-children-alias', 'C10',
+       'children() returns the internal list (callers sort it in place)',
+       [(P+'taxonomy/taxonomy_tree.py',
+         "        return list(self._data[level][node])\n",
+         "        return self._data[level][node]\n")],
+       'R-ENCAPS/escape', 'children')
+mutant('C10-flatten-in-place', 'C10',
+       'flatten works on the internal dict instead of a deep copy',
+       [(P+'taxonomy/taxonomy_tree.py',
+         "        new_data = copy.deepcopy(self._data)\n"
+         "        if 'metadata' in new_data:\n"
+         "            new_data['metadata']['flattened'] = True\n",
+         "        new_data = self._data\n"
+         "        if 'metadata' in new_data:\n"
+         "            new_data['metadata']['flattened'] = True\n")],
+       'R-ENCAPS/no-mutation', 'flatten')
+mutant('C10-drop-level-shallow-copy', 'C10',
+       '_drop_level works on a shallow copy: nested lists are shared',
+       [(P+'taxonomy/taxonomy_tree.py',
+         "        new_data = copy.deepcopy(self._data)\n"
+         "        if 'metadata' in new_data:\n"
+         "            if 'dropped_levels' not in new_data['metadata']:\n",
+         "        new_data = self._data\n"
+         "        if 'metadata' in new_data:\n"
+         "            if 'dropped_levels' not in new_data['metadata']:\n")],
+       'R-ENCAPS/no-mutation', '_drop_level')
+mutant('C10-to-str-drops-cells-in-place', 'C10',
+       'to_str(drop_cells=True) empties the leaf lists of the tree itself',
+       [(P+'taxonomy/taxonomy_tree.py',
+         "            out_dict = copy.deepcopy(self._data)\n"
+         "            for leaf in out_dict[self.leaf_level]:\n",
+         "            out_dict = self._data\n"
+         "            for leaf in out_dict[self.leaf_level]:\n")],
+       'R-ENCAPS/no-mutation', 'to_str')
+mutant('C10-helper-mutates', 'C10',
+       'convert_tree_to_leaves sorts the lists of the tree it is given',
+       [(P+'taxonomy/utils.py',
+         "    hierarchy = taxonomy_tree['hierarchy']\n"
+         "    result = dict()\n    for this_level in hierarchy:\n"
+         "        this_result = dict()\n",
+         "    hierarchy = taxonomy_tree['hierarchy']\n"
+         "    result = dict()\n    for this_level in hierarchy:\n"
+         "        this_result = dict()\n"
+         "        for _node in taxonomy_tree[this_level]:\n"
+         "            taxonomy_tree[this_level][_node].sort()\n")],
+       'R-ENCAPS/no-mutation/helper')
+mutant('C10-setter-method', 'C10',
+       'a new method re-binds _data without validation',
+       [(P+'taxonomy/taxonomy_tree.py',
+         "    def drop_leaf_level(self):\n",
+         "    def replace_level(self, level, value):\n"
+         "        new_data = copy.deepcopy(self._data)\n"
+         "        new_data[level] = value\n"
+         "        self._data = new_data\n\n"
+         "    def drop_leaf_level(self):\n")],
+       'R-ENCAPS/assigned-only-in-init')
+mutant('C10-two-parents-accepted', 'C10',
+       'a node with two parents only triggers a warning',
+       [(P+'taxonomy/utils.py',
+         "                        msg += f\"{child_to_parent[child_level]"
+         "[this_child]}\"\n                        raise RuntimeError(msg)"
+         "\n",
+         "                        msg += f\"{child_to_parent[child_level]"
+         "[this_child]}\"\n                        warnings.warn(msg)\n")],
+       'R-ARMS/validator-raises')
+mutant('C10-duplicate-rows-check-removed', 'C10',
+       'the unique-rows check is removed',
+       [(P+'taxonomy/utils.py',
+         "    if unq_ct.max() > 1:\n",
+         "    if False:\n")],
+       'R-EXH/validator-checks', 'two leaves')
+mutant('C10-missing-child-check-removed', 'C10',
+       'children that do not exist at the child level are accepted',
+       [(P+'taxonomy/utils.py',
+         "                if this_child not in child_set:\n",
+         "                if False:\n")],
+       'R-EXH/validator-checks', 'listed child exists')
+mutant('C10-orphan-check-removed', 'C10',
+       'nodes without a parent are accepted',
+       [(P+'taxonomy/utils.py',
+         "        for child in child_set:\n"
+         "            if child not in with_parent:\n"
+         "                raise RuntimeError(\n"
+         "                    f\"{child_level}:{child} has no parent at "
+         "level \"\n"
+         "                    f\"{parent_level}\")\n", "")],
+       'R-EXH/validator-checks', 'has a parent')
+
+twin('C10-twin-validate-first-on-copy', 'C10',
+     'validation on a local copy that is then stored',
+     [(P+'taxonomy/taxonomy_tree.py',
+       "        self._data = copy.deepcopy(data)\n"
+       "        validate_taxonomy_tree(self._data)\n",
+       "        self._data = copy.deepcopy(data)\n"
+       "        stored = self._data\n"
+       "        validate_taxonomy_tree(stored)\n")])
+twin('C10-twin-new-pure-accessor', 'C10',
+     'a new accessor returning a fresh list',
+     [(P+'taxonomy/taxonomy_tree.py',
+       "    def drop_leaf_level(self):\n",
+       "    def levels_above_leaf(self):\n"
+       "        return list(self._data['hierarchy'][:-1])\n\n"
+       "    def drop_leaf_level(self):\n")])
+twin('C10-twin-caller-sorts-own-copy', 'C10',
+     'another caller sorts the fresh list it gets from children()',
+     [(P+'type_assignment/utils.py',
+       "def validate_bootstrap_factor_lookup(",
+       "def _sorted_children(taxonomy_tree, level, node):\n"
+       "    kids = taxonomy_tree.children(level, node)\n"
+       "    kids.sort()\n"
+       "    return kids\n\n\n"
+       "def validate_bootstrap_factor_lookup(")])
+twin('C10-twin-unique-via-set', 'C10',
+     'unique-rows check written with len(set(...))',
+     [(P+'taxonomy/utils.py',
+       "    if unq_ct.max() > 1:\n",
+       "    if len(set(all_rows)) != len(all_rows):\n")])
